@@ -150,6 +150,10 @@ type c18E2EOut struct {
 	Details []c18SrvDetail `json:"details"`
 	Header  []string       `json:"header"`  // values of the custom response header the client saw (headers or error metadata)
 	Trailer []string       `json:"trailer"` // values of the custom response trailer the client saw
+	// ReqInfo: the last detail unpacks (anypb: UnmarshalTo, as the result assertion does) into the
+	// RequestInfo the server packed (anypb.New), and it names the request: the test-case header sent
+	ReqInfo     bool   `json:"reqInfo"`
+	ReqInfoName string `json:"reqInfoName"`
 }
 
 var (
@@ -252,6 +256,17 @@ func c18E2E(in c18E2EIn) c18E2EOut {
 	out.Msg = gen.Hex([]byte(ce.Message()))
 	for _, d := range ce.Details() {
 		out.Details = append(out.Details, c18SrvDetail{Type: d.Type(), Val: gen.Hex(d.Bytes())})
+	}
+	if pe := internal.ConvertConnectToProtoError(ce); len(pe.GetDetails()) > 0 {
+		info := &conformancev1.ConformancePayload_RequestInfo{}
+		if pe.Details[len(pe.Details)-1].UnmarshalTo(info) == nil {
+			out.ReqInfo = true
+			for _, h := range info.RequestHeaders {
+				if strings.EqualFold(h.Name, "X-Test-Case-Name") && len(h.Value) > 0 {
+					out.ReqInfoName = h.Value[0]
+				}
+			}
+		}
 	}
 	// unary errors: connect-go hands headers and trailers to the caller merged in Meta()
 	out.Header = append(out.Header, ce.Meta().Values(c18E2EHeader)...)
